@@ -406,3 +406,21 @@ Fixpoint sb_chk (P : problem) (phi psi : expr) (m : bool) (s : state) (pi : list
       | None => true
       end
   end.
+
+(* ------------------------------------------------------------------ the specification for one `sometime-after` constraint *)
+(* the monitoring bit at the end of the plan: set when psi holds, reset when phi holds without psi, kept otherwise.
+   Started with "psi or not phi in s0" this is SimCheck.mon_sa on the visited states (mrun_sa / mverdict_spec). *)
+Fixpoint sa_bit (P : problem) (phi psi : expr) (m : bool) (s : state) (pi : list (N * list value)) : bool :=
+  match pi with
+  | [] => m
+  | (aid, args) :: r =>
+      match lookup_action P aid with
+      | Some a =>
+          match spec_step false P s a args with
+          | Some t => sa_bit P phi psi (if holds false (mk_interp P t []) psi then true
+                                        else if holds false (mk_interp P t []) phi then false else m) t r
+          | None => m
+          end
+      | None => m
+      end
+  end.
